@@ -1,5 +1,7 @@
 import T4V.Model.Write
 import T4V.Spec.T4
+import T4V.Proofs.OptTokens
+import T4V.Proofs.CellCard
 import Std.Data.String.ToNat
 /-!
 # The reader of `VOLU` bodies inverts the writer (lemmas for property C08)
@@ -188,5 +190,105 @@ theorem stageP (P M : List Nat) (ops : Option (OpKind × List Nat)) (fict : Bool
     obtain ⟨k, r, hkr, hk⟩ := sect_head "MINUS" rfl M _ (tailO_head ops fict)
     rw [sect_nonempty, hkr, readBody_plus ctx (fuel + 4) _ k r hk, ← hkr]
     exact stageM ctx M ops fict fuel { b with pluses := b.pluses ++ (a :: l).mergeSort natLe } hb
+
+end T4V.WR
+
+namespace T4V.WR
+open T4V T4V.CC
+
+/-! ### from the bytes of the line to its words -/
+
+theorem intercalate_joinSp : ∀ xs : List (List Char), [' '].intercalate xs = joinSp xs
+  | [] => rfl
+  | [w] => by simp [List.intercalate, joinSp]
+  | w :: w2 :: r => by
+    have ih := intercalate_joinSp (w2 :: r)
+    simp only [List.intercalate, List.intersperse_cons₂, List.flatten_cons] at ih ⊢
+    simp only [joinSp]
+    rw [← ih]
+    simp
+
+/-- `words` undoes `" ".join` on non-empty words without blanks -/
+theorem words_intercalate (ws : List String) (h : ∀ w ∈ ws, w ≠ "" ∧ ∀ c ∈ w.toList, cws c = false) :
+    words (" ".intercalate ws) = ws := by
+  unfold words
+  rw [String.toList_intercalate]
+  have : " ".toList = [' '] := rfl
+  rw [this, intercalate_joinSp, splitWs_join]
+  · rw [List.map_map]
+    conv => rhs; rw [← List.map_id ws]
+    apply List.map_congr_left
+    intro w _
+    simp
+  · intro x hx
+    obtain ⟨w, hw, rfl⟩ := List.mem_map.mp hx
+    refine ⟨?_, (h w hw).2⟩
+    intro he
+    exact (h w hw).1 (by simpa using he)
+
+theorem nat_word (n : Nat) : toString n ≠ "" ∧ ∀ c ∈ (toString n).toList, cws c = false := by
+  have h := String.isNat_iff.mp (isNat_toString n)
+  refine ⟨h.1, fun c hc => ?_⟩
+  rcases h.2.1 c hc with hd | rfl
+  · exact digit_not_ws c (by
+      simp only [Char.isDigit, Bool.and_eq_true, decide_eq_true_eq] at hd
+      simp only [CC.isDigit, Bool.and_eq_true, decide_eq_true_eq]
+      exact hd)
+  · decide
+
+end T4V.WR
+
+namespace T4V.WR
+open T4V T4V.CC
+
+theorem lit_word (w : String) (h : w = "EQUA" ∨ w = "PLUS" ∨ w = "MINUS" ∨ w = "UNION" ∨ w = "INTE" ∨ w = "FICTIVE" ∨ w = "ENDV") :
+    w ≠ "" ∧ ∀ c ∈ w.toList, cws c = false := by
+  rcases h with rfl | rfl | rfl | rfl | rfl | rfl | rfl <;> exact ⟨by decide, by decide⟩
+
+theorem volWords_ok (P M : List Nat) (ops : Option (OpKind × List Nat)) (fict : Bool) :
+    ∀ w ∈ volWords P M (ops.map fun x => (opName x.1, x.2)) fict ++ ["ENDV"], w ≠ "" ∧ ∀ c ∈ w.toList, cws c = false := by
+  intro w hw
+  simp only [volWords, List.mem_append, List.mem_cons, List.mem_nil_iff, or_false, List.mem_map] at hw
+  rcases hw with ((((hw | hw) | hw) | hw) | hw) | hw
+  · exact lit_word w (Or.inl hw)
+  · split at hw
+    · first | exact hw.elim | simp at hw
+    · simp only [List.mem_append, List.mem_cons, List.mem_nil_iff, or_false, List.mem_map] at hw
+      rcases hw with (rfl | rfl) | ⟨n, -, rfl⟩
+      · exact lit_word _ (by simp)
+      · exact nat_word _
+      · exact nat_word n
+  · split at hw
+    · first | exact hw.elim | simp at hw
+    · simp only [List.mem_append, List.mem_cons, List.mem_nil_iff, or_false, List.mem_map] at hw
+      rcases hw with (rfl | rfl) | ⟨n, -, rfl⟩
+      · exact lit_word _ (by simp)
+      · exact nat_word _
+      · exact nat_word n
+  · cases ops with
+    | none => simp at hw
+    | some x =>
+      simp only [Option.map_some, List.mem_append, List.mem_cons, List.mem_nil_iff, or_false, List.mem_map] at hw
+      rcases hw with (rfl | rfl) | ⟨n, -, rfl⟩
+      · cases x.1 <;> exact lit_word _ (by simp [opName])
+      · exact nat_word _
+      · exact nat_word n
+  · split at hw
+    · simp only [List.mem_cons, List.mem_nil_iff, or_false] at hw
+      subst hw; exact lit_word _ (by simp)
+    · simp at hw
+  · subst hw; exact lit_word _ (by simp)
+
+/-- the line as written (`VolumeT4.__str__`, a blank, `ENDV`) splits into the words of the volume and `ENDV` -/
+theorem words_volLine (P M : List Nat) (ops : Option (OpKind × List Nat)) (fict : Bool) :
+    words (volLine P M (ops.map fun x => (opName x.1, x.2)) fict ++ " ENDV")
+      = volWords P M (ops.map fun x => (opName x.1, x.2)) fict ++ ["ENDV"] := by
+  have hne : volWords P M (ops.map fun x => (opName x.1, x.2)) fict ≠ [] := by simp [volWords]
+  have e : volLine P M (ops.map fun x => (opName x.1, x.2)) fict ++ " ENDV"
+      = " ".intercalate (volWords P M (ops.map fun x => (opName x.1, x.2)) fict ++ ["ENDV"]) := by
+    rw [String.intercalate_append_of_ne_nil hne (by simp)]
+    simp [volLine, String.append_assoc]
+  rw [e]
+  exact words_intercalate _ (volWords_ok P M ops fict)
 
 end T4V.WR
